@@ -191,6 +191,17 @@ int all_redzones_ok(void)
   return 1;
 }
 
+/* ------------------------------------------------------------------ crashes */
+#include <signal.h>
+static void on_signal(int sig)
+{
+  /* report the case that died, flush what was printed so far, and stop: the Python
+     side re-runs the cases that follow */
+  fprintf(OUT, " CRASH-SIGNAL %d\n", sig);
+  fflush(OUT);
+  _exit(100 + sig);
+}
+
 /* ------------------------------------------------------------------ dispatch */
 static const op_t *tables[] = { ops_basic, ops_mul, ops_div, ops_bit, ops_misc, NULL };
 
@@ -211,6 +222,7 @@ int main(int argc, char **argv)
   static char obuf[1 << 20];
   setvbuf(stdout, obuf, _IOFBF, sizeof obuf);
   mp_set_memory_functions(rec_alloc, rec_realloc, rec_free);
+  signal(SIGSEGV, on_signal); signal(SIGFPE, on_signal); signal(SIGABRT, on_signal); signal(SIGBUS, on_signal); signal(SIGILL, on_signal);
   while ((len = getline(&line, &cap, stdin)) >= 0) {
     cur_line++;
     while (len > 0 && (line[len-1] == '\n' || line[len-1] == '\r')) line[--len] = 0;
